@@ -218,6 +218,36 @@ theorem included_secret_value_available_on_project {top file : Env} {pname : Str
   refine ⟨o, mo, secret_carrier_value_loaded (lookup_insert_self _ _ _) ?_ (secret_paths_not_user_defined n) ho⟩
   rw [lookup_insert_ne (by decide)]; exact hnc
 
+/-- **requested content is exact for a secret of an included file**: under the hypotheses of
+`included_secret_value_available_on_project`, with a non-empty value, both renderers with secret content requested write
+exactly that value under `content` of the secret (composition with `render_with_content_exact`) -/
+theorem included_secret_content_rendered_exactly {top file : Env} {pname : String} {main inc : KVs} {p : Proj}
+    (h : loadInc top file pname main inc = .ok p) {objs kvs : KVs} {n e v : String}
+    (hS : lookup "secrets" inc = some (.map objs)) (hl : lookup n objs = some (.map kvs))
+    (hmain : ∀ to, lookup "secrets" main = some (.map to) → lookup n to = none)
+    (he : lookup "environment" kvs = some (.str e)) (hee : e ≠ "") (hv : (mergeEnv top file).lookup e = some v)
+    (hnc : lookup "content" kvs = none) (hvne : v ≠ "") (r : Renderer) :
+    ∃ o, (n, o) ∈ p.secrets ∧ ∃ out, renderSecret r { o with marshallContent := true } = .map out ∧
+      lookup "content" out = some (.str v) := by
+  obtain ⟨o, mo, hc⟩ := included_secret_value_available_on_project h hS hl hmain he hee hv hnc
+  obtain ⟨out, h1, h2⟩ := render_with_content_exact o r
+  refine ⟨o, mo, out, h1, ?_⟩
+  rw [h2, hc, if_neg hvne]
+
+/-- the same composition for a single-file model (`secret_value_available_on_project` ∘ `render_with_content_exact`):
+"rendering with secret content requested reproduces the value exactly", from the raw model to the rendered tree -/
+theorem secret_content_rendered_exactly {env : Env} {pname : String} {dict : KVs} {p : Proj}
+    (h : load env pname dict = .ok p) {objs kvs : KVs} {n e v : String}
+    (hS : lookup "secrets" dict = some (.map objs)) (hm : (n, Val.map kvs) ∈ objs)
+    (he : lookup "environment" kvs = some (.str e)) (hee : e ≠ "") (hv : env.lookup e = some v)
+    (hnc : lookup "content" kvs = none) (hvne : v ≠ "") (r : Renderer) :
+    ∃ o, (n, o) ∈ p.secrets ∧ ∃ out, renderSecret r { o with marshallContent := true } = .map out ∧
+      lookup "content" out = some (.str v) := by
+  obtain ⟨o, mo, hc⟩ := secret_value_available_on_project h hS hm he hee hv hnc
+  obtain ⟨out, h1, h2⟩ := render_with_content_exact o r
+  refine ⟨o, mo, out, h1, ?_⟩
+  rw [h2, hc, if_neg hvne]
+
 /-- the literal composition and the section-wise pipeline agree for a model with an include too -/
 theorem loadDictInc_agrees_with_loadInc (top file : Env) (pname : String) (main inc : KVs) (p : Proj) :
     loadDictInc top file pname main inc = .ok p ↔ loadInc top file pname main inc = .ok p := by
